@@ -20,7 +20,8 @@ RULE = (
     "families with probabilistic/periodic agents, config seed, action list A); ops = reset(seed=s), A, reset(seed=s), A. "
     "Each case is executed in separate interpreter processes (variants) that differ in PYTHONHASHSEED, in the harness's "
     "entropy stream (uuid4 values, MAC/ICMP-identifier bits, ping payloads), in the clock (origin, whole-second stamps) "
-    "and in logging (everything on DEBUG to files vs everything off). Oracle: per-step digests (observation, reward, every "
+    "and in logging (everything on DEBUG to files vs everything off); one variant also runs its batch of cases in reverse "
+    "order, so that what an interpreter did before (other scenarios built and stepped) differs too. Oracle: per-step digests (observation, reward, every "
     "agent's action/parameters/status/normalised response data as emitted) are identical "
     "across variants, and within a run the two episodes started by reset(seed=s) are identical. Non-trivial = a scripted "
     "agent took >=1 non-idle action and the digests are not all-idle; distinct by case hash."
@@ -32,7 +33,8 @@ ASSUMPTIONS = [
 
 VARIANTS = [
     {"label": "base", "hashseed": "0", "entropy": {}},
-    {"label": "hash1-entropy-clock", "hashseed": "1",
+    # this variant also runs the batch in REVERSE order: what ran earlier in the interpreter must not matter either
+    {"label": "hash1-entropy-clock", "hashseed": "1", "reverse": True,
      "entropy": {"uuid_base": 10 ** 9, "bits_mode": "max", "clock_origin": 1_900_000_000, "clock_step_us": 1_000_000, "clock_offset_us": 0}},
     {"label": "hashN-logging", "hashseed": "4242", "entropy": {"uuid_base": 77, "bits_mode": "min"}, "logging": True},
     {"label": "hash2", "hashseed": "2", "entropy": {"uuid_base": 5, "clock_step_us": 999_983}},
@@ -44,7 +46,7 @@ def variants(tier: str) -> List[Dict]:
     return VARIANTS[:3] if tier == "quick" else VARIANTS
 
 
-def run_variants(cases: List[Dict], vs: List[Dict], tag: str) -> List[Dict]:
+def run_variants(cases: List[Dict], vs: List[Dict], tag: str, history: Optional[List[Dict]] = None) -> List[Dict]:
     """Run the batch under every variant, each in its own interpreter (in parallel). Returns parsed outputs."""
     work = os.path.join(os.environ.get("VERIF_WORK", "/tmp"), f"c03-{tag}-{os.getpid()}")
     os.makedirs(work, exist_ok=True)
@@ -52,8 +54,13 @@ def run_variants(cases: List[Dict], vs: List[Dict], tag: str) -> List[Dict]:
     for i, v in enumerate(vs):
         bp = os.path.join(work, f"batch{i}.json")
         op = os.path.join(work, f"out{i}.json")
+        batch = list(cases)
+        if v.get("reverse"):
+            batch = batch[::-1]
+        if history and v.get("reverse"):
+            batch = list(history) + batch  # replay of an order-dependent difference: the cases that ran before it
         with open(bp, "w") as f:
-            json.dump({"variant": dict(v), "cases": cases}, f)
+            json.dump({"variant": dict(v), "cases": batch}, f)
         env = dict(os.environ)
         env["PYTHONHASHSEED"] = v["hashseed"]
         env["VERIF_CHILD_HOME"] = os.path.join(work, f"home{i}")
@@ -66,7 +73,12 @@ def run_variants(cases: List[Dict], vs: List[Dict], tag: str) -> List[Dict]:
         if p.returncode != 0 or not os.path.exists(op):
             raise RuntimeError(f"traj_worker variant {v['label']} failed rc={p.returncode}: {err.decode()[-2000:]}")
         with open(op) as f:
-            outs.append(json.load(f))
+            o = json.load(f)
+        if history and v.get("reverse"):
+            o["results"] = o["results"][len(history):]
+        if v.get("reverse"):
+            o["results"] = o["results"][::-1]
+        outs.append(o)
     import shutil
 
     shutil.rmtree(work, ignore_errors=True)
@@ -122,6 +134,8 @@ def judge(case: Dict, per_variant: List[Dict], vs: List[Dict]) -> CaseResult:
         d = first_diff(base, r)
         if d:
             kind = "logging" if v.get("logging") else "process"
+            if v.get("reverse"):
+                res.label("differs_in_reversed_batch_variant")
             res.violate(f"differs-across-{kind}:{d[0]}", f"variant {v['label']} vs base: {d[1]}")
             break
     # re-seeding reproduces the episode: episodes come in pairs started by the same reset(seed=s)
@@ -147,7 +161,7 @@ def judge(case: Dict, per_variant: List[Dict], vs: List[Dict]) -> CaseResult:
 
 def run_case(case: Dict) -> CaseResult:
     vs = variants(os.environ.get("VERIF_TIER_C03", "quick"))
-    outs = run_variants([case], vs, "replay")
+    outs = run_variants([case], vs, "replay", history=case.get("_ran_after"))
     return judge(case, [o["results"][0] for o in outs], vs)
 
 
@@ -179,7 +193,11 @@ def shipped_case(draw, paths):
 def gen_case(draw):
     c = draw(gen_case_strategy(max_ops=14))
     c["spec"]["agents"]["green"] = draw(st.integers(1, 2))
-    c["spec"]["agents"]["red"] = draw(st.sampled_from(["periodic", "dm", "none"]))
+    c["spec"]["agents"]["red"] = draw(st.sampled_from(["periodic", "dm", "dm", "none"]))
+    # NMNE counters are the observation leaves most exposed to process-wide settings: always observed here, and the
+    # scenario itself declares capture on / says nothing about it
+    c["spec"]["obs"]["include_nmne"] = True
+    c["spec"]["nmne"] = draw(st.sampled_from([None, None, True, False]))
     acts = [o for o in c["ops"] if o[0] != "reset"] or [["step", 0]]
     s = draw(st.integers(0, 1000))
     c["ops"] = [["reset", s]] + acts + [["reset", s]] + acts
@@ -249,6 +267,9 @@ def worker(ctx: Ctx):
         outs = run_variants(part, vs, f"w{ctx.idx}-{i}")
         for j, case in enumerate(part):
             res = judge(case, [o["results"][j] for o in outs], vs)
+            if res.violations and any(v.get("reverse") for v in vs):
+                # in the reversed variant this case ran after the ones that FOLLOW it here; keep them for the replay
+                case = dict(case, _ran_after=[c for c in part[j + 1:][::-1]])
             ctx.record(case, res)
     if ctx.idx == 0:
         ctx.extra["variants"] = "; ".join(f"{v['label']}(PYTHONHASHSEED={v['hashseed']})" for v in vs)
